@@ -66,6 +66,17 @@ func c13List(c *core.Ctx) []string {
 	}
 
 	if c.Rng.Intn(3) == 0 {
+		// Several rules that live in the $domain index (short literals) and
+		// match the same request: their order in the answer is part of it.
+		for _, l := range []string{"/ad^$domain=site.com", "-ad-$domain=site.com|ads.com", "ads$domain=site.com", ".js$domain=site.com|example.org", "/x$domain=~other.org|site.com", "@@.js$domain=site.com", "ad$domain=site.com,important"} {
+			if c.Rng.Intn(3) > 0 {
+				j := c.Rng.Intn(len(lines) + 1)
+				lines = append(lines[:j], append([]string{l}, lines[j:]...)...)
+			}
+		}
+		c.Event("lists_with_several_domain_index_rules", 1)
+	}
+	if c.Rng.Intn(3) == 0 {
 		// A cosmetic-heavy list: several unconditional generic rules (3..7, so
 		// that slices built from them have spare capacity), generic rules that
 		// depend on the host through an exclusion or an exception, and
@@ -316,7 +327,7 @@ func c13Run(c *core.Ctx, idx int) {
 	}
 	for i := 0; i < 8; i++ {
 		q := gen.RandomReq(c.Rng, 0)
-		q.URL = "http://" + c13Hosts[c.Rng.Intn(len(c13Hosts))] + []string{"/", "/ads/x.js", "/banner"}[c.Rng.Intn(3)]
+		q.URL = "http://" + c13Hosts[c.Rng.Intn(len(c13Hosts))] + []string{"/", "/ads/x.js", "/banner", "/ad/x-ad-/ads.js"}[c.Rng.Intn(4)]
 		if c.Rng.Intn(2) == 0 {
 			q.Source = []string{"http://site.com/", "http://site.com/app/page", "http://site.com/other", "https://site.com/app/", "https://site.com/"}[c.Rng.Intn(5)]
 		}
